@@ -19,8 +19,31 @@ func nameMatches(full, pat string) bool {
 	if full == pat {
 		return true
 	}
+	if len(funcRenames) > 0 {
+		// a call pattern or observe entry that names a function which was renamed since
+		i := strings.LastIndexAny(pat, "./)")
+		if nn, ok := funcRenames[pat[i+1:]]; ok && nn != pat[i+1:] {
+			if nameMatches1(full, pat[:i+1]+nn) {
+				return true
+			}
+		}
+	}
+	for old, nn := range typeRenamesShort {
+		if strings.Contains(pat, old) {
+			if p2 := wordReplace(pat, old, nn); p2 != pat && nameMatches1(full, p2) {
+				return true
+			}
+		}
+	}
+	return nameMatches1(full, pat)
+}
+
+func nameMatches1(full, pat string) bool {
+	if full == pat {
+		return true
+	}
 	if i := strings.Index(full, " aka "); i >= 0 {
-		return nameMatches(full[:i], pat) || nameMatches(full[i+5:], pat)
+		return nameMatches1(full[:i], pat) || nameMatches1(full[i+5:], pat)
 	}
 	if strings.HasSuffix(full, pat) && len(full) > len(pat) {
 		c := full[len(full)-len(pat)-1]
